@@ -148,8 +148,20 @@ def mir_writer_table(P):
                             W[ch] = v
                     if call_matches(c, r'String::push$') and len(c['args']) > 1 and ch is None and is_local_op(c['args'][1]):
                         ident = True
-                if ch is not None and ch not in W:
-                    W[ch] = None
+                if ch is not None and W.get(ch) is None:
+                    # table form: the arm only selects the replacement (`'<' => Some("&lt;")`), which is pushed after the match
+                    cands = set()
+                    for q, st in b.iter_stmts():
+                        if q[0] in reg and st['k'] == 'assign':
+                            ops = st['rv'].get('ops', []) if st['rv']['k'] == 'agg' else ([st['rv']['o']] if st['rv']['k'] == 'use' else [])
+                            for o in ops:
+                                v = _unq(_str_const(b, o)) if (not is_local_op(o) and o.get('c') == '&str') or is_local_op(o) else None
+                                if v is not None and v.startswith('&') and v.endswith(';'):
+                                    cands.add(v)
+                    W[ch] = cands.pop() if len(cands) == 1 else None
+                if ch is None and not ident:
+                    # the else arm yields None and the character itself is pushed after the match
+                    ident = any(call_matches(c, r'String::push$') and len(c['args']) > 1 and is_local_op(c['args'][1]) for q, c in b.iter_calls())
     pre = None
     for pos, c in b.iter_calls():
         if call_matches(c, r'<impl str>::contains$|str>::contains$') and len(c['args']) > 1:
